@@ -653,6 +653,7 @@ def run(ck: Check) -> None:
 
     ck.search_hooks.insert(0, c10_keys.search)
     guard.campaign(ck, c10_keys.campaign_keys, quick)
+    guard.campaign(ck, c10_keys.campaign_sanitiser, 400 if quick else 6000)
     guard.campaign(ck, known_findings)
 
 
